@@ -102,35 +102,41 @@ theorem rename_att_refines (E : Env) (f : File) (varid : Int) (raw rawNew : Name
 /-- del_att: ids and order after the deletion are those of the list with the element removed -/
 theorem del_att_refines (E : Env) (f : File) (varid : Int) (raw : Name) (inv : FInv E f) :
     R E (delAtt E f varid raw) (sDelAtt E f.abs varid raw) := delAtt_refines E f varid raw inv
-/-- copy_att within a file, between variables, and between two files: the full statement -/
-def copy_att_refines_Statement : Prop :=
+/-- copy_att within a file, between variables, and between two files: the full statement, for the code
+    variant `b` (`Env.copyChk`: false = ncmpio_copy_att before the repair of C07-D1, true = repaired) -/
+def copy_att_refines_Statement (b : Bool) : Prop :=
   ∀ (E : Env) (fin : File) (varidIn : Int) (raw : Name) (fout : File) (varidOut : Int) (same : Bool),
-    FInv E fin → FInv E fout →
+    E.copyChk = b → FInv E fin → FInv E fout →
     R E (copyAtt E fin varidIn raw fout varidOut same) (sCopyAtt E fin.abs varidIn raw fout.abs varidOut same)
 
-/-- FALSE of the code (defect found by this check): ncmpi_copy_att / ncmpio_copy_att never look at the
-    format of the output file, so an NC_UINT64 attribute of a CDF-5 file is copied into a CDF-1 file
-    with NC_NOERR (ncmpi_put_att of the same attribute returns NC_ESTRICTCDF2); the file written at
-    enddef/close is not a CDF-1 file and ncmpi_open refuses it (NC_EBADTYPE). -/
-theorem copy_att_refines_counterexample : ¬ copy_att_refines_Statement := by
+/-- FALSE of the unrepaired code (defect found by this check): ncmpi_copy_att / ncmpio_copy_att never
+    look at the format of the output file, so an NC_UINT64 attribute of a CDF-5 file is copied into a
+    CDF-1 file with NC_NOERR (ncmpi_put_att of the same attribute returns NC_ESTRICTCDF2); the file
+    written at enddef/close is not a CDF-1 file and ncmpi_open refuses it (NC_EBADTYPE). -/
+theorem copy_att_refines_counterexample : ¬ copy_att_refines_Statement false := by
   intro h
-  let E : Env := ⟨fun _ _ => 0, id, fun _ => true⟩
+  let E : Env := ⟨fun _ _ => 0, id, fun _ => true, false⟩
   let fin : File := (putAtt E (create ⟨1, 1, 1, 1, 5⟩) (-1) [97] false 11 [5]).1
   have hin : FInv E fin :=
     (putAtt_refines E _ (-1) [97] false 11 [5] (create_refines E ⟨1, 1, 1, 1, 5⟩ (by decide) (by decide) (by decide) (by decide)).2).2.2
   have hout : FInv E (create ⟨1, 1, 1, 1, 1⟩) :=
     (create_refines E ⟨1, 1, 1, 1, 1⟩ (by decide) (by decide) (by decide) (by decide)).2
-  have := (h E fin (-1) [97] (create ⟨1, 1, 1, 1, 1⟩) (-1) false hin hout).2.1
+  have := (h E fin (-1) [97] (create ⟨1, 1, 1, 1, 1⟩) (-1) false rfl hin hout).2.1
   exact absurd this (by decide)
 
-/-- the statement with exactly the hypothesis the code needs: the attribute being copied does not
+/-- the unrepaired code with exactly the hypothesis it needs: the attribute being copied does not
     have an extended type while the output file is CDF-1/2 -/
 theorem copy_att_refines_partial (E : Env) (fin : File) (varidIn : Int) (raw : Name) (fout : File) (varidOut : Int)
     (same : Bool) (invIn : FInv E fin) (inv : FInv E fout)
     (hok : ∀ Ain i ia, fin.getAtts varidIn = some Ain → lookup (names Ain.items) (E.nfc raw) = some i →
              Ain.items[i]? = some ia → ¬ (fout.cfg.format ≤ 2 ∧ ia.xtype > 6)) :
     R E (copyAtt E fin varidIn raw fout varidOut same) (sCopyAtt E fin.abs varidIn raw fout.abs varidOut same) :=
-  copyAtt_refines E fin varidIn raw fout varidOut same invIn inv hok
+  copyAtt_refines E fin varidIn raw fout varidOut same invIn inv (Or.inr hok)
+
+/-- with the repair the full statement holds -/
+theorem copy_att_refines_repaired : copy_att_refines_Statement true :=
+  fun E fin varidIn raw fout varidOut same hb invIn inv =>
+    copyAtt_refines E fin varidIn raw fout varidOut same invIn inv (Or.inl hb)
 
 /-- open: whatever well-formed header is read, populate-at-open yields consistent tables and the
     file shows exactly the header's lists -/
@@ -139,30 +145,42 @@ theorem open_refines (E : Env) (c : Cfg) (s : SHdr) (rdonly : Bool) (wf : s.Wf)
     (openFile E c s rdonly).abs = sOpen c.format s rdonly ∧ FInv E (openFile E c s rdonly) :=
   openFile_refines E c s rdonly wf hd hv hg ha
 
-/-- `meta_refines`, full statement: every program, run from the empty world, returns the reference
-    model's results (error codes and ids, call by call), ends in a world whose abstraction is the
-    reference model's world (objects, ids, order, names, types, lengths, values; header content left
-    on disk by close), and every table of every open file is consistent at the end. -/
-def meta_refines_Statement : Prop :=
-  ∀ (E : Env) (nslots : Nat) (ops : List MOp), (∀ op ∈ ops, op.ok) →
+/-- `meta_refines`, full statement for the code variant `b`: every program, run from the empty world,
+    returns the reference model's results (error codes and ids, call by call), ends in a world whose
+    abstraction is the reference model's world (objects, ids, order, names, types, lengths, values;
+    header content left on disk by close), and every table of every open file is consistent at the end. -/
+def meta_refines_Statement (b : Bool) : Prop :=
+  ∀ (E : Env) (nslots : Nat) (ops : List MOp), E.copyChk = b → (∀ op ∈ ops, op.ok) →
     (wrun E (World.init nslots) ops).2 = (swrun E (SWorld.init nslots) ops).2 ∧
     (wrun E (World.init nslots) ops).1.abs = (swrun E (SWorld.init nslots) ops).1 ∧
     WInv E (wrun E (World.init nslots) ops).1
 
-/-- the program that refutes it: create a CDF-5 file and a CDF-1 file, put an NC_UINT64 attribute
-    into the first, copy it into the second — the code answers NC_NOERR, the reference model
-    NC_ESTRICTCDF2 -/
+/-- the program that refutes it for the unrepaired code: create a CDF-5 file and a CDF-1 file, put an
+    NC_UINT64 attribute into the first, copy it into the second — the code answers NC_NOERR, the
+    reference model NC_ESTRICTCDF2 -/
 def badCopy : List MOp :=
   [.create 0 ⟨8, 8, 8, 8, 5⟩, .create 1 ⟨8, 8, 8, 8, 1⟩, .putAtt 0 (-1) [97] false 11 [5], .copyAtt 0 (-1) [97] 1 (-1)]
 
-theorem meta_refines_counterexample : ¬ meta_refines_Statement := by
+theorem meta_refines_counterexample : ¬ meta_refines_Statement false := by
   intro h
-  have := (h ⟨fun _ _ => 0, id, fun _ => true⟩ 2 badCopy (by decide)).1
+  have := (h ⟨fun _ _ => 0, id, fun _ => true, false⟩ 2 badCopy rfl (by decide)).1
   exact absurd this (by decide)
 
-/-- `meta_refines_partial`: the statement holds for every program that never copies an attribute of an
-    extended type into a CDF-1/2 file (`copiesOK`, evaluated along the run) — in particular for every
-    program whose files all have the same format, and for every program without copy_att. -/
+/-- with the repair the full statement holds, for every program -/
+theorem meta_refines_repaired : meta_refines_Statement true := by
+  intro E nslots ops hb ok
+  have := wrun_refines E (World.init nslots) ops (init_winv E nslots) ok (copiesOK_of_chk hb _ _)
+  rw [init_abs] at this
+  exact ⟨this.2.1, this.1, this.2.2⟩
+
+/-- the repaired code answers the refuting program like the reference model -/
+example : (wrun ⟨fun _ _ => 0, id, fun _ => true, true⟩ (World.init 2) badCopy).2.map Prod.fst = [0, 0, 0, -232] := by
+  decide
+
+/-- `meta_refines_partial`: for either variant the statement holds for every program that satisfies
+    `copiesOK` (evaluated along the run): trivially true of every program with the repair
+    (`copiesOK_of_chk`), and without it true of every program that never copies an attribute of an
+    extended type into a CDF-1/2 file — in particular every program without copy_att. -/
 theorem meta_refines_partial (E : Env) (nslots : Nat) (ops : List MOp) (ok : ∀ op ∈ ops, op.ok)
     (cok : copiesOK E (World.init nslots) ops = true) :
     (wrun E (World.init nslots) ops).2 = (swrun E (SWorld.init nslots) ops).2 ∧
@@ -258,7 +276,7 @@ example : hashDelete (fun _ _ => 1) 2 [[], [0, 1, 2]] [97] 0 = some [[], [0, 1]]
 
 /-- a program with colliding names (constant hash, table size 1 and 2), a delete that shifts ids and a
     rename, run on model and reference model: the hypotheses of `meta_refines` are met -/
-def demoEnv : Env := ⟨fun _ _ => 7, id, fun _ => true⟩
+def demoEnv : Env := ⟨fun _ _ => 7, id, fun _ => true, false⟩
 def demoOps : List MOp :=
   [.create 0 ⟨1, 2, 1, 2, 5⟩, .defDim 0 [120] 3, .defDim 0 [121] 0, .defVar 0 [118] 4 [1, 0],
    .putAtt 0 0 [97] false 4 [1, 2], .putAtt 0 0 [98] true 2 [104, 105], .putAtt 0 0 [99] false 1 [300],
@@ -282,7 +300,7 @@ def obligations : List String := [
   "hash_inv_populate", "hash_inv_mem", "lookup_by_name_eq_spec", "name_id_agree",
   "def_dim_refines", "rename_dim_refines", "def_var_refines", "rename_var_refines", "put_att_refines",
   "rename_att_refines", "del_att_refines", "copy_att_refines_counterexample", "copy_att_refines_partial",
-  "open_refines", "meta_refines_counterexample", "meta_refines_partial", "tables_consistent_reachable",
+  "copy_att_refines_repaired", "open_refines", "meta_refines_counterexample", "meta_refines_repaired", "meta_refines_partial", "tables_consistent_reachable",
   "inquiries_agree", "name_id_agree_api", "data_mode_change_on_disk"
 ]
 end PnVerif.Props.C07
